@@ -7,12 +7,14 @@ CHECK = {
         "net/http (client and server, HTTP/1.1 and HTTP/2) and x/net/http2 (h2c) transport headers, trailers and bodies faithfully; only what the definition lists is demanded, plus absence of what the handler / original request carried",
         "HTTP forbids a body on a 204 / 304 response (the server's http.ResponseWriter refuses every body byte with http.ErrBodyNotAllowed): for these statuses the body is not demanded; over HTTP/2 (x/net h2c server and net/http's bundled TLS server) status, headers, TRAILERS and absence of handler output are demanded, over HTTP/1.1 (no body = no chunked encoding = no trailers) status, headers and absence of handler output",
         "net/http's HTTP/1.1 server removes Content-Type from a 304 response by itself (server.go suppressedHeaders, RFC 7232 4.1); a given Content-Type is therefore not demanded for status 304 over HTTP/1.1 (it is over HTTP/2)",
+        "a raw response prescribed by the first request message is owed whatever becomes of the rest of the request stream (the property states no such condition): the reference servers are started with message_receive_limit = 32 KiB so that 'a later message is over the limit' is expressible; a request whose upload is aborted is only observable where the response can still be read - over HTTP/1.1 by closing the sending side of the TCP connection in the middle of a chunk (an HTTP/2 client that resets its stream has no response to look at)",
+        "rawRequestSender.RoundTrip returning means 'response headers received', not 'request body sent': a server may answer before it reads (full-duplex servers, servers that decide from the request headers). The early-answering recording server is released by a channel the test closes when RoundTrip has returned - no clock -, and HTTP/1.1 full duplex is what net/http's ResponseController.EnableFullDuplex provides. Bodies of 4 MiB / 16 MiB on a fresh connection are assumed to exceed what the HTTP/2 flow-control window (1 MiB) and the loopback socket buffers of an unread connection let the client send ahead of the reader",
         "headers that middleware in front of rawResponder has put on the response before the handler ran (CORS: Vary, Access-Control-Allow-Origin / -Expose-Headers / -Allow-Credentials; the generic pre-setting middleware of unit c17-rawresp: Cache-Control, X-Raw-R) may carry the middleware's values in addition to the given ones - for exactly those names the oracle is 'the given values are a subsequence, in list order, of the values on the wire'; for every other name it stays exact equality",
     ],
     "manifest": {
         "engine": "ENUM",
         "technique": "bounded-exhaustive enumeration against a reference model over real loopback HTTP",
-        "text": "Every RawHTTPResponse / RawHTTPRequest definition of a finite alphabet (status {unset,200,204,304,404,500}; header and trailer lists of 0-3 entries with 1-2 values, incl. lists that name the same header / trailer in two entries (identical spelling or differing only in case, adjacent or around another entry, the same entry twice), for which every given value is demanded in list order; body none | one message (unset/text/binary/binary_message x 7 compression values) | stream of 0-2 items with flags {0,1,2,128,255}, length unset or explicit, payload absent or present x compression; verbs, URIs incl. paths with significant percent-escapes (%2F, %3F, %23, %25; with and without a query string of their own) combined with every raw / encoded query parameter list - the escaped path the server receives (request target, URL.EscapedPath()) must be the one specified -, raw and encoded (+-base64) query parameters) is pushed through the real encoders, the real rawResponder middleware under every short adversarial handler script (set header / WriteHeader / Write / Flush / set trailer before or after choosing the raw response) and the real rawRequestSender, over HTTP/1.1, HTTP/2 (TLS) and h2c, and what a plain net/http peer receives is compared with the definition by an independent decoder. Outer glue: the reference-server unit drives the complete chain of createServer (CORS -> rawResponder -> checks -> connect-go) in three environments (HTTP/1.1, x/net h2c, net/http's HTTP/2 over TLS with the server's own certificate), with and without an Origin request header, and with raw header / trailer lists that name the headers the CORS middleware sets itself (Vary, Access-Control-Allow-Origin / -Expose-Headers / -Allow-Credentials, other case spellings, one and two entries); the raw-response unit puts a generic middleware that pre-sets headers in front of rawResponder and lists those names: every given value must reach the wire in list order. Bodyless statuses: 204 and 304 crossed with every body, header and trailer list - over HTTP/2 the given trailers must arrive although the body write is refused. Encoder histories: 2 and 3 encodings back to back on one goroutine (GOMAXPROCS 1, no GC inside a history, so pooled / global scratch state always reaches the next encoding): a stream or message written to a destination whose k-th Write fails (every k; nothing accepted or half of the bytes accepted), once or twice in a row, then an unrelated definition written to a good buffer, which must decode to exactly its own items.",
+        "text": "Every RawHTTPResponse / RawHTTPRequest definition of a finite alphabet (status {unset,200,204,304,404,500}; header and trailer lists of 0-3 entries with 1-2 values, incl. lists that name the same header / trailer in two entries (identical spelling or differing only in case, adjacent or around another entry, the same entry twice), for which every given value is demanded in list order; body none | one message (unset/text/binary/binary_message x 7 compression values) | stream of 0-2 items with flags {0,1,2,128,255}, length unset or explicit, payload absent or present x compression; verbs, URIs incl. paths with significant percent-escapes (%2F, %3F, %23, %25; with and without a query string of their own) combined with every raw / encoded query parameter list - the escaped path the server receives (request target, URL.EscapedPath()) must be the one specified -, raw and encoded (+-base64) query parameters) is pushed through the real encoders, the real rawResponder middleware under every short adversarial handler script (set header / WriteHeader / Write / Flush / set trailer before or after choosing the raw response) and the real rawRequestSender, over HTTP/1.1, HTTP/2 (TLS) and h2c, and what a plain net/http peer receives is compared with the definition by an independent decoder. Outer glue: the reference-server unit drives the complete chain of createServer (CORS -> rawResponder -> checks -> connect-go) in three environments (HTTP/1.1, x/net h2c, net/http's HTTP/2 over TLS with the server's own certificate), with and without an Origin request header, and with raw header / trailer lists that name the headers the CORS middleware sets itself (Vary, Access-Control-Allow-Origin / -Expose-Headers / -Allow-Credentials, other case spellings, one and two entries); the raw-response unit puts a generic middleware that pre-sets headers in front of rawResponder and lists those names: every given value must reach the wire in list order. Bodyless statuses: 204 and 304 crossed with every body, header and trailer list - over HTTP/2 the given trailers must arrive although the body write is refused. Request-side faults (reference-server unit): for the client / server / bidi stream procedures, what follows the request message that prescribes the raw response is an axis - nothing, good messages, and at the second or third position (and followed by a good message where the stream can go on) a message over the server's message_receive_limit, the compressed flag without a declared encoding, the end-stream flag, a payload that is no protobuf message, the body ending inside an envelope prefix / inside the declared payload / behind a prefix that declares 4 GiB, and over HTTP/1.1 a client that half-closes the TCP connection in the middle of a chunk - crossed with status/header/trailer/body definitions in all three environments: status, headers, trailers and body must be exactly the prescribed ones and nothing of connect-go's own error response may appear. Timing axis (raw-request unit): the recording server either reads the request and then answers, or answers EARLY (flushes its response headers, waits until RoundTrip has returned, then reads), crossed with the medium body set and with large generated bodies of 64 KiB, 1 MiB, 4 MiB and 16 MiB (one message / one item / several items) over HTTP/1.1 (full duplex), HTTP/2 (TLS) and h2c on fresh connections: the server must receive exactly the prescribed bytes (length and SHA-256 computed independently). Encoder histories: 2 and 3 encodings back to back on one goroutine (GOMAXPROCS 1, no GC inside a history, so pooled / global scratch state always reaches the next encoding): a stream or message written to a destination whose k-th Write fails (every k; nothing accepted or half of the bytes accepted), once or twice in a row, then an unrelated definition written to a good buffer, which must decode to exactly its own items.",
         "note": "Bodies are compared by decoding (envelope parse + decompression with the defining libraries), not byte-for-byte with a second encoder, because compressed bytes are not canonical. Host/Content-Length/Transfer-Encoding headers are outside the alphabet (owned by net/http).",
         "design_ref": "DESIGN.md §2.2, §4 C17",
     },
